@@ -15,6 +15,10 @@ HERE = os.path.dirname(os.path.abspath(__file__))
 def load_mutants(prop=None):
     with open(os.path.join(HERE, 'mutants.json')) as fh:
         ms = json.load(fh)['mutants']
+    own = os.path.join(HERE, 'mutants_own.json')
+    if os.path.exists(own):
+        with open(own) as fh:
+            ms += json.load(fh)['mutants']
     if prop:
         ms = [m for m in ms if prop in m['props']]
     return [m for m in ms if m.get('status') != 'equivalent']
